@@ -4,6 +4,15 @@
 import json, subprocess
 
 BUILT = {
+ "C09": ("exploration", "recover() + logical step budgets (scanner characters, token-list reads, enforced from hooks) + allocation bound around the session's tokenise+parse path, in child processes",
+         "Exhaustive over all token sequences up to length 2 (quick) / 3 (thorough) of the full vocabulary and longer ones over a reduced vocabulary; all byte and token prefixes of thousands of valid statements; mutations; quote and numeric pathology; random bytes; 10^5-deep nesting.",
+         "budgets are far above what valid input uses (observed ratio reported); a wall-clock timeout alone is inconclusive"),
+ "C10": ("exploration", "generated statement tree vs the neutral form of the parsed statement (AND/OR chains flattened), four renderings per tree",
+         "Held on the trees explored over the whole grammar; every AND/OR shape up to 5 predicates enumerated; every list kind with >= 3 elements.",
+         "literals without quote/backslash/newline; positions not compared"),
+ "C18": ("exploration", "recover() around Session.ExecQuery in child processes, over type-confused statement families and four session states",
+         "Held on the statements explored (thousands per run, every family in every session state).",
+         "any result or error value is acceptable"),
  "C05": ("exploration", "independent reference SQL evaluator over the model vs the real parse path + EvaluateSelect on a real database (ORDER BY ties and LIMIT windows judged up to the freedom the property leaves)",
          "Held on the queries explored: thousands of generated single-table queries per run over all clause combinations, all six operators on all types, and every AND/OR shape up to 4 predicates on a truth table.",
          "non-NULL operands; names of unnamed expressions not judged"),
